@@ -602,3 +602,54 @@ seed("c15-sumslice-guard", "C15", VFN, """    pub fn sum_slice(&self, start: usi
         if self.size() <= start { panic!( "Vector range error." ); }
         if self.size() < end { panic!( "Vector range error." ); }""", "slices/sum_slice")
 seed("c15-powspace-exponent", "C15", VF, "vec[i] = a + (b - a) * f64::powf( (i as f64) / ((size as f64) - 1.0), p );", "vec[i] = a + (b - a) * f64::powf( (i as f64) / ((size as f64) - 1.0), 1.0 / p );", "spacing/powspace")
+
+# ---------------------------------------------------------------- C19
+ME1 = "src/mesh1d.rs"
+ME2 = "src/mesh2d.rs"
+seed("c19-flat-nx", "C19", ME2, "        self.vars[ nodex * self.ny + nodey ].clone()", "        self.vars[ nodex * self.nx + nodey ].clone()", "flat-index")
+seed("c19-cross-args-swapped", "C19", ME2, "            section.set_nodes_vars( nodey, self.get_nodes_vars( nodex, nodey ) );", "            section.set_nodes_vars( nodey, self.get_nodes_vars( nodey, nodex ) );", "cross-sections")
+seed("c19-corner-twice", "C19", ME2, """                sum += 0.25 * dx * dy * ( self.vars[ i * self.ny + j ][ var ]
+                    + self.vars[ ( i + 1 ) * self.ny + j ][ var ]
+                    + self.vars[ i * self.ny + j + 1 ][ var ]""", """                sum += 0.25 * dx * dy * ( self.vars[ i * self.ny + j ][ var ]
+                    + self.vars[ ( i + 1 ) * self.ny + j ][ var ]
+                    + self.vars[ ( i + 1 ) * self.ny + j ][ var ]""", "trapezium-2d/trapezium")
+seed("c19-reader-stride", "C19", ME1, "            if i % (self.nvars+1) == 0 {", "            if i % (self.nvars) == 0 {", "io-agreement")
+seed("c19-interp-right-left", "C19", ME1, "let deriv = (right - left.clone()) / ( self.nodes[ node + 1 ] - self.nodes[ node ] );", "let deriv = (left.clone() - right) / ( self.nodes[ node + 1 ] - self.nodes[ node ] );", "interpolation")
+seed("c19-trap1d-same-end", "C19", ME1, "                              + self.vars[ node + 1 ][ var ] );", "                              + self.vars[ node ][ var ] );", "trapezium-1d")
+seed("c19-varmatrix-transposed", "C19", ME2, "                m[(i,j)] = self.vars[ i * self.ny + j ][ var ].clone();", "                m[(i,j)] = self.vars[ j * self.ny + i ][ var ].clone();", "var-matrix")
+seed("c19-mesh2d-new-order", "C19", ME2, """        for _i in 0..nx {
+            for _j in 0..ny {
+                vars.push( node_vars.clone() );""", """        for _i in 0..nx {
+            for _j in 1..ny {
+                vars.push( node_vars.clone() );""", "storage/mesh2d-new")
+seed("c19-set-wrong-slot", "C19", ME1, "        self.vars[ node ] = vec;", "        self.vars[ 0 ] = vec;", "storage/mesh1d-set-get")
+seed("c19-get-guard-dropped", "C19", ME1, '        if node >= self.nodes.size() { panic!( "Mesh1D error: get_nodes_vars range error." ); }\n', "", "accessor-guards")
+seed("c19-trap2d-weight", "C19", ME2, """                sum += 0.25 * dx * dy * ( self.vars[ i * self.ny + j ][ var ]""", """                sum += 0.5 * dx * dy * ( self.vars[ i * self.ny + j ][ var ]""", "trapezium-2d/trapezium")
+seed("c19-trap2d-dy-from-x", "C19", ME2, """                let dy = self.y_nodes[ j + 1 ] - self.y_nodes[ j ];
+                sum += 0.25 * dx * dy * ( self.vars[ i * self.ny + j ][ var ]""", """                let dy = self.x_nodes[ j + 1 ] - self.x_nodes[ j ];
+                sum += 0.25 * dx * dy * ( self.vars[ i * self.ny + j ][ var ]""", "trapezium-2d/trapezium")
+seed("c19-cross-wrong-axis", "C19", ME2, "let mut section = Mesh1D::<T, f64>::new( self.y_nodes.clone(), self.nvars );", "let mut section = Mesh1D::<T, f64>::new( self.x_nodes.clone(), self.nvars );", "cross-sections/cross_section_xnode")
+seed("c19-writer-extra-token", "C19", ME1, """            write!( f, "{number:.prec$} ", prec = precision, number = self.nodes[ i ] ).unwrap();
+            for var in 0..self.nvars {""", """            write!( f, "{number:.prec$} ", prec = precision, number = self.nodes[ i ] ).unwrap();
+            write!( f, "{number:.prec$} ", prec = precision, number = self.nodes[ i ] ).unwrap();
+            for var in 0..self.nvars {""", "io-agreement")
+seed("c19-reader-field-shift", "C19", ME1, "                if i % (self.nvars+1) == var+1 {", "                if i % (self.nvars+1) == var {", "io-agreement")
+
+# ---------------------------------------------------------------- C14
+CT = "src/complex/trigonometric.rs"
+CH = "src/complex/hyperbolic.rs"
+CE = "src/complex/elementary.rs"
+seed("c14-cos-imag-plus", "C14", CT, "Cmplx::new(self.real.cos() * self.imag.cosh(), -self.real.sin() * self.imag.sinh())", "Cmplx::new(self.real.cos() * self.imag.cosh(), self.real.sin() * self.imag.sinh())", "primitive-forms/cos")
+seed("c14-sec-sin", "C14", CT, "        Complex::<f64>::one() / self.cos()", "        Complex::<f64>::one() / self.sin()", "reciprocals/sec")
+seed("c14-tan-inverted", "C14", CT, "        self.sin() / self.cos()", "        self.cos() / self.sin()", "quotients/tan")
+seed("c14-asec-partner", "C14", CT, "        let inv = Cmplx::one() / self.clone();\n        inv.acos()", "        let inv = Cmplx::one() / self.clone();\n        inv.asin()", "inverse-of-reciprocal/asec")
+seed("c14-sinh-swapped", "C14", CH, "Cmplx::new(self.real.sinh() * self.imag.cos(), self.real.cosh() * self.imag.sin())", "Cmplx::new(self.real.cosh() * self.imag.cos(), self.real.sinh() * self.imag.sin())", "primitive-forms/sinh")
+seed("c14-sqrt-full-angle", "C14", CE, "let x = sqrt_abs * f64::cos( 0.5 * theta );", "let x = sqrt_abs * f64::cos( theta );", "principal/sqrt")
+seed("c14-ln-abs-sqr", "C14", CE, "        let r = self.abs();\n        let theta = self.arg();\n        Complex::new( f64::ln(r), theta )", "        let r = self.abs_sqr();\n        let theta = self.arg();\n        Complex::new( f64::ln(r), theta )", "principal/ln")
+seed("c14-pow-sign", "C14", CE, "let x = r2.powf( 0.5 * w.real ) * f64::exp( -w.imag * theta );", "let x = r2.powf( 0.5 * w.real ) * f64::exp( w.imag * theta );", "pow/pow")
+seed("c14-log-inverted", "C14", CE, "        self.ln() / b.ln()", "        b.ln() / self.ln()", "quotients/log")
+seed("c14-coth-tanh-of-inverse", "C14", CH, "        Cmplx::one() / self.tanh()", "        ( Cmplx::one() / self.clone() ).tanh()", "reciprocals/coth")
+seed("c14-exp-cos-sin", "C14", CE, "Complex::new( a * f64::cos(self.imag), a * f64::sin(self.imag) )", "Complex::new( a * f64::sin(self.imag), a * f64::cos(self.imag) )", "primitive-forms/exp")
+seed("c14-powf-angle", "C14", CE, "        let b = x * theta;", "        let b = 0.5 * x * theta;", "pow/powf")
+seed("n-c14-commuted", "C14", CT, "Cmplx::new(self.real.sin() * self.imag.cosh(), self.real.cos() * self.imag.sinh())", "Cmplx::new(self.imag.cosh() * self.real.sin(), self.imag.sinh() * self.real.cos())", "SILENT", "commuted factors")
+seed("n-c14-neg-placement", "C14", CT, "Cmplx::new(self.real.cos() * self.imag.cosh(), -self.real.sin() * self.imag.sinh())", "Cmplx::new(self.real.cos() * self.imag.cosh(), -( self.real.sin() * self.imag.sinh() ))", "SILENT", "sign placement")
